@@ -3993,11 +3993,6 @@ func (ce *callEngine) callNativeFunc(ctx context.Context, m *wasm.ModuleInstance
 			timeout := int64(ce.popValue())
 			exp := ce.popValue()
 			offset := ce.popMemoryOffset(op)
-			// Runtime instead of validation error because the spec intends to allow binaries to include
-			// such instructions as long as they are not executed.
-			if !memoryInst.Shared {
-				panic(wasmruntime.ErrRuntimeExpectedSharedMemory)
-			}
 
 			switch unsignedType(op.B1) {
 			case unsignedTypeI32:
@@ -4006,6 +4001,12 @@ func (ce *callEngine) callNativeFunc(ctx context.Context, m *wasm.ModuleInstance
 				}
 				if int(offset) > len(memoryInst.Buffer)-4 {
 					panic(wasmruntime.ErrRuntimeOutOfBoundsMemoryAccess)
+				}
+				// Runtime instead of validation error because the spec intends to allow binaries to include
+				// such instructions as long as they are not executed. This comes after the checks of the
+				// address, as in the compiler where they are done before leaving the generated code.
+				if !memoryInst.Shared {
+					panic(wasmruntime.ErrRuntimeExpectedSharedMemory)
 				}
 				ce.pushValue(memoryInst.Wait32(offset, uint32(exp), timeout, func(mem *wasm.MemoryInstance, offset uint32) uint32 {
 					mem.Mux.Lock()
@@ -4019,6 +4020,9 @@ func (ce *callEngine) callNativeFunc(ctx context.Context, m *wasm.ModuleInstance
 				}
 				if int(offset) > len(memoryInst.Buffer)-8 {
 					panic(wasmruntime.ErrRuntimeOutOfBoundsMemoryAccess)
+				}
+				if !memoryInst.Shared {
+					panic(wasmruntime.ErrRuntimeExpectedSharedMemory)
 				}
 				ce.pushValue(memoryInst.Wait64(offset, exp, timeout, func(mem *wasm.MemoryInstance, offset uint32) uint64 {
 					mem.Mux.Lock()
